@@ -658,7 +658,7 @@ func (x *hW) invRowsZero(a *archetype, from uint32) {
 // checkStats compares World.Stats() (first call: Stats, later calls: UpdateStats)
 // with the tables: per node the active/total table counts, per table activity and size.
 func (x *hW) checkStats() {
-	w := x.w
+	w := &x.w
 	st := w.Stats()
 	vAssert(st.Entities.Used == x.aliveCount(), "Stats().Entities.Used = alive entities")
 	nn := w.nodes.Len()
